@@ -142,12 +142,16 @@ def run(ck):
         if i % 8 == 3:
             fv = np.zeros(d, dtype=np.float32); fv[d - 1] = -1.5
             axis_kw = dict(split_method='fixed_vector', fixed_vector=torch.tensor(fv))
-        model = xr.xRFM(rfm_params=params, max_leaf_size=L, n_trees=n_trees, overlap_fraction=f, verbose=False,
+        # every ninth fit: a forced number of splits (the largest leaf is split again and again): a lopsided tree whose depth exceeds log2(#leaves)
+        chain_kw = dict(number_of_splits=[3, 4, 5][(i // 9) % 3]) if (i % 9 == 4 and not depth0) else {}
+        if chain_kw:
+            L = 10_000; n_trees = 1
+        model = xr.xRFM(rfm_params=params, max_leaf_size=L, n_trees=n_trees, overlap_fraction=f, verbose=False, **chain_kw,
                         **(axis_kw or dict(split_method=('random_global_agop' if i % 8 == 5 else ['top_vector_agop_on_subset', 'random_pca', 'linear', 'pca'][i % 4]))),
                         use_temperature_tuning=False, classification_mode=cmode, refill_size=20,
                         n_tree_iters=(1 if i % 8 == 5 else 0))
         desc = dict(i=i, kernel=kern, task=task, cmode=cmode, n_trees=n_trees, n=n, L=L, d=d, f=f, diag=diag, bw=bwmode,
-                    exponent=exponent, default_params=(params is None), axis_aligned_negative_split=bool(i % 8 == 3), seed=ck.seed)
+                    exponent=exponent, default_params=(params is None), axis_aligned_negative_split=bool(i % 8 == 3), forced_splits=chain_kw.get('number_of_splits'), seed=ck.seed)
         try:
             with xr.quiet():
                 model.fit(torch.tensor(X), torch.tensor(y), torch.tensor(Xv), torch.tensor(yv))
